@@ -38,7 +38,7 @@ COMPONENTS = {'real': B.COMPONENTS['real'] + ['InMemoryScreen', 'PcIO', 'Keyboar
 def plan(tier):
     if tier == 'thorough':
         return {'cases': 200000, 'chunk': 200, 'budget_s': 1200, 'case_timeout_s': 60, 'minimise_budget_s': 240}
-    return {'cases': 12000, 'chunk': 100, 'budget_s': 80, 'case_timeout_s': 60, 'minimise_budget_s': 90}
+    return {'cases': 40000, 'chunk': 200, 'budget_s': 70, 'case_timeout_s': 60, 'minimise_budget_s': 90}
 
 
 # ------------------------------------------------------------------------------------------ (a) scripts
@@ -308,3 +308,7 @@ def signature(case, violation):
     sig = enginesim.signature(case, violation)
     sig['kind'] = 'script'
     return sig
+
+
+def adequacy(tier, agg):
+    return B.adequacy(tier, agg, ['device_memory_accesses', 'access_rw', 'access_ww', 'access_rb', 'access_wb', 'screen_case', 'screen_frames', 'screen_malformed_rejected', 'storage_flat', 'storage_hybrid', 'storage_paged'])
